@@ -32,7 +32,8 @@ theorem gather_line_false (tail : Bytes) (bad : Bool) :
 theorem gather_line_true (tail : Bytes) (bad : Bool) :
     ∀ (rest : List Bytes) (acc : Bytes) (k0 : Nat) {text : Bytes} {rest' : List Bytes} {k : Nat},
       gather tail bad acc rest k0 = .line text rest' k true →
-      bad = false ∧ rest = [] ∧ acc = [] ∧ rest' = [] ∧ text = tail ∧ k = k0 + 1 := by
+      bad = false ∧ rest' = [] ∧ k = k0 + rest.length + 1 ∧
+        ((acc ≠ [] ∨ rest ≠ []) → tail ≠ []) ∧ (rest = [] → text = acc ++ tail) := by
   intro rest
   induction rest with
   | nil =>
@@ -45,13 +46,17 @@ theorem gather_line_true (tail : Bytes) (bad : Bool) :
       · cases h
       · rename_i hacc
         injection h with h1 h2 h3 h4
-        exact ⟨by simpa using hb, rfl, by simpa using hacc, h2.symm, h1.symm, h3.symm⟩
+        refine ⟨by simpa using hb, h2.symm, by simp [← h3], ?_, fun _ => h1.symm⟩
+        intro hne
+        rcases hne with hne | hne
+        · intro ht; exact hacc ⟨hne, ht⟩
+        · exact absurd rfl hne
   | cons l rest ih =>
     intro acc k0 text rest' k h
     unfold gather at h
     split at h
-    · have := ih _ _ h
-      exact absurd this.2.2.1 (by simp)
+    · obtain ⟨h1, h2, h3, h4, _⟩ := ih _ _ h
+      refine ⟨h1, h2, by simp [h3]; omega, fun _ => h4 (.inl (by simp)), fun e => by cases e⟩
     · injection h with _ _ _ h4
       cases h4
 
@@ -70,7 +75,7 @@ theorem gather_eofCont (tail : Bytes) (bad : Bool) :
       split at h
       · rename_i hacc
         injection h with h1
-        exact ⟨by simpa using hb, by simp; omega, fun e => absurd e hacc⟩
+        exact ⟨by simpa using hb, by simp; omega, fun e => absurd e hacc.1⟩
       · cases h
   | cons l rest ih =>
     intro acc k0 k h
@@ -170,14 +175,14 @@ theorem advance_ok {fs : FS} {r : Frame} (h : FrameOK fs r) {text : Bytes} {rest
       have : used = [] := (List.append_eq_nil_iff.mp h1.symm).1
       contradiction
   | true =>
-    obtain ⟨hb, hr, _, hr', _, hk⟩ := gather_line_true _ _ _ _ _ hg
+    obtain ⟨hb, hr', hk, _, _⟩ := gather_line_true _ _ _ _ _ hg
     refine ⟨body, tail0, hfs, ?_, Or.inr ⟨?_, ?_, hb, ?_⟩⟩
     · simp [Frame.advance]; omega
     · simp [Frame.advance, hr']
     · simp [Frame.advance]
     · rcases hd with ⟨_, pre, hbody, hp⟩ | ⟨_, _, _, hlt⟩
-      · rw [hr] at hbody
-        simp [Frame.advance, hbody, hp, hk]
+      · have : body.length = pre.length + r.rest.length := by rw [hbody]; simp
+        simp [Frame.advance]; omega
       · simp [Frame.advance]; omega
 
 /-- where a non-blank logical line sits in its file -/
@@ -208,13 +213,18 @@ theorem line_pos {fs : FS} {r : Frame} (h : FrameOK fs r) {text : Bytes} {rest :
         unfold nphys
         omega
       | true =>
-        obtain ⟨_, hr, _, _, htext, hk⟩ := gather_line_true _ _ _ _ _ hg
+        obtain ⟨_, _, hk, htl, htext⟩ := gather_line_true _ _ _ _ _ hg
         have htne : r.tail ≠ [] := by
-          intro e
-          rw [htext, e, ignore_nil] at hni
-          cases hni
+          by_cases hrest : r.rest = []
+          · intro e
+            have := htext hrest
+            rw [this, e] at hni
+            simp only [List.append_nil, List.nil_append] at hni
+            rw [ignore_nil] at hni
+            cases hni
+          · exact htl (.inr hrest)
         refine ⟨by omega, ?_, fun _ => htne⟩
-        have : body.length = pre.length := by rw [hb, hr]; simp
+        have : body.length = pre.length + r.rest.length := by rw [hb]; simp
         unfold nphys
         rw [← ht]
         simp [htne]
@@ -382,9 +392,9 @@ theorem rem_advance_lt {r : Frame} {text : Bytes} {rest : List Bytes} {k : Nat} 
     simp
     omega
   | true =>
-    obtain ⟨_, hr, _, hr', _, _⟩ := gather_line_true _ _ _ _ _ hg
+    obtain ⟨_, hr', _, _, _⟩ := gather_line_true _ _ _ _ _ hg
     have := ht rfl
-    simp only [rem, Frame.advance, hr, hr']
+    simp only [rem, Frame.advance, hr']
     simp [this]
 
 theorem phi_step {L : Nat} {r r' : Frame} (below : List Frame) (h : rem r' + 1 ≤ rem r) :
